@@ -310,13 +310,21 @@ func parseScript(body string) ([]parser.ScriptContents, error) {
 // emulate renders the contents the way the generated code does: JS parts verbatim, Go parts through
 // the escaper the parser's flag selects (the compiled Body0..5 templates validate this emulation).
 func emulate(cs []parser.ScriptContents, v string) (out string, pieces []string) {
+	return emulateN(cs, func(int) string { return v })
+}
+
+// emulateN gives the k-th Go expression the value val(k).
+func emulateN(cs []parser.ScriptContents, val func(k int) string) (out string, pieces []string) {
 	var b strings.Builder
+	k := -1
 	for _, c := range cs {
 		if c.Value != nil {
 			b.WriteString(*c.Value)
 			continue
 		}
 		var e string
+		k++
+		v := val(k)
 		if c.InsideStringLiteral {
 			e, _ = templruntime.ScriptContentInsideStringLiteral(v)
 		} else {
@@ -439,6 +447,80 @@ func checkBody(body string) {
 			}
 		}
 	}
+	// Whole literals: the pieces are right one by one; joined with their neighbours (another value, or the static
+	// text that follows) each literal must still be ONE literal whose value is the static text with the values in place.
+	vectors := [][]string{{"$", "{x}"}, {"$", "$"}, {"\\", "'"}, {"<", "/script>"}, {"</scr", "ipt>"}, {"<!-", "-"}, {"`", "${x}"}, {"$", "zq"}}
+	for _, vec := range vectors {
+		if nslots < 2 && vec[0] != "$" {
+			continue
+		}
+		bs.slotChecks.Add(1)
+		val := func(k int) string { return vec[k%len(vec)] }
+		out, _ := emulateN(cs, val)
+		nout, _ := emulate(cs, "zq")
+		what := wholeLiterals(nout, jslit.Lex(nout), out, val)
+		if what == "" {
+			r := htmltok.Tokenize("<script>" + out + "</script><p>")
+			if sk := htmltok.Skeleton(r.Tokens); r.Unterminated || sk != "<script>T(script)</script><p>" {
+				what = "script element structure is " + sk
+			}
+		}
+		if what != "" {
+			report(what, strings.Join(vec, " , "), out)
+			return
+		}
+	}
+}
+
+// wholeLiterals lexes the rendered script and compares every string/template literal that holds a value with the
+// same literal of the neutral rendering (every value "zq"), value by value.
+func wholeLiterals(neutral string, spans []jslit.Span, out string, val func(k int) string) string {
+	ospans := jslit.Lex(out)
+	if jslit.Skeleton(ospans) != jslit.Skeleton(spans) {
+		return fmt.Sprintf("the lexical structure of the script changed with the values: %s, with neutral values %s", jslit.Skeleton(ospans), jslit.Skeleton(spans))
+	}
+	k := 0
+	for i, sp := range spans {
+		seg := neutral[sp.Start:sp.End]
+		n := strings.Count(seg, "zq")
+		first := k
+		k += n
+		var q byte
+		switch sp.Ctx {
+		case jslit.StrSingle:
+			q = '\''
+		case jslit.StrDouble:
+			q = '"'
+		case jslit.Template:
+			q = '`'
+		default:
+			continue
+		}
+		if n == 0 || len(seg) < 2 || seg[0] != q || seg[len(seg)-1] != q || sp.Unterminated {
+			continue // no value inside, or a piece of a template literal with its own ${ }
+		}
+		if ospans[i].Unterminated || ospans[i].End-ospans[i].Start < 2 {
+			return fmt.Sprintf("literal %s does not end with these values", vlib.Quote(seg))
+		}
+		want, err := jslit.EvalStringBody(seg[1:len(seg)-1], q)
+		if err != nil {
+			continue // a literal with its own ${ }: not a plain value
+		}
+		parts := strings.Split(want, "zq")
+		want = parts[0]
+		for j := 1; j < len(parts); j++ {
+			want += val(first+j-1) + parts[j]
+		}
+		og := out[ospans[i].Start:ospans[i].End]
+		got, err := jslit.EvalStringBody(og[1:len(og)-1], q)
+		if err != nil {
+			return fmt.Sprintf("literal %s rendered as %s: %v", vlib.Quote(seg), vlib.Quote(og), err)
+		}
+		if got != want {
+			return fmt.Sprintf("literal %s rendered as %s evaluates to %s, want %s", vlib.Quote(seg), vlib.Quote(og), vlib.Quote(got), vlib.Quote(want))
+		}
+	}
+	return ""
 }
 
 func evalIs(e string, q byte, want string) string {
@@ -526,6 +608,7 @@ func main() {
 	btok := []string{"a", "=", ";", "\n", "\"s\"", "'s'", "`s`", "\"it's\"", "'say \"x\"'", "\"a\\\"b\"", "'a\\'b'", "\"//x\"", "'/*'", "// c'\"\n", "/* c'\" */", "/\"/", "/'/g", "a/b",
 		slot, "\"p" + slot + "q\"", "'" + slot + "'", "`" + slot + "`", "\"" + slot + "//x\"", "'" + slot + "/*'", "`${a}" + slot + "`",
 		// escaped quotes of the literal's own kind around a slot (an even number keeps the literal well-formed)
+		"`" + slot + slot + "`", "`" + slot + "{a}`", "'" + slot + slot + "'", "\"" + slot + "/script>\"",
 		"`u \\`" + slot + "\\` n`", "'u \\'" + slot + "\\' n'", "\"u \\\"" + slot + "\\\" n\"", "`\\`\\`" + slot + "`",
 		// line continuations inside string literals (LF and CRLF files), CRLF as a plain line ending
 		"'a \\\n" + slot + "'", "'a \\\r\n" + slot + "'", "\"a \\\r\nb\"", "\r\n"}
